@@ -667,7 +667,7 @@ impl Scenario for SpendNet {
                     events.push(json!({"op": "ship", "fmt": *rng.pick(&["cbor", "json"])}));
                 }
                 let so = if rng.chance(1, 8) { *rng.pick(&["enospc", "epipe", "eagain", "ebadf"]) } else { "" };
-                events.push(json!({"op": "validate", "input": i, "stdout": so}));
+                events.push(json!({"op": "validate", "input": i, "stdout": so, "persist": rng.chance(1, 4), "persist_after": rng.below(14)}));
                 continue;
             }
             match rng.weighted(&[8, 8, 26, 16, 16, 20, 4, 2]) {
@@ -1636,6 +1636,59 @@ impl SpendNet {
                                     return;
                                 }
                             }
+                        }
+                    }
+                    // the validator crashes in the middle of the script and resumes from what it had made durable (the interpreter's
+                    // JSON form): the verdict must be the one of the uninterrupted validator. Applied only when the restored
+                    // object serialises to the same text again (what a JSON form leaves out on purpose is not judged here).
+                    let persist_after = ju64(ev, "persist_after");
+                    if jbool(ev, "persist") {
+                        let res = guard(|| -> Result<Option<bool>, String> {
+                            let mut itp = Interpreter::from_transaction(&tx, i).map_err(|e| e.to_string())?;
+                            for _ in 0..persist_after {
+                                match itp.next() {
+                                    Some(Ok(_)) => {}
+                                    Some(Err(e)) => return Err(e.to_string()),
+                                    None => break,
+                                }
+                            }
+                            let js = match serde_json::to_string(&itp) {
+                                Ok(j) => j,
+                                Err(_) => return Ok(None),
+                            };
+                            let mut back: Interpreter = match serde_json::from_str(&js) {
+                                Ok(b) => b,
+                                Err(_) => return Ok(None),
+                            };
+                            if serde_json::to_string(&back).map(|j| j != js).unwrap_or(true) {
+                                return Ok(None);
+                            }
+                            back.run().map_err(|e| e.to_string())?;
+                            let st = back.state();
+                            Ok(Some(st.stack.last().map(|top| top.iter().any(|b| *b != 0)).unwrap_or(false)))
+                        });
+                        let persisted: Option<bool> = match res {
+                            Ok(Ok(v)) => v,
+                            Ok(Err(_)) => Some(false),
+                            Err(p) => {
+                                if ctx.violate("panic", format!("panic@{}#validate (persisted)", site_file(&p.site)), format!("validator panicked at {}: {}", p.site, p.msg)) {
+                                    return;
+                                }
+                                None
+                            }
+                        };
+                        match (persisted, verdicts.first()) {
+                            (Some(pv), Some((_, live, _))) => {
+                                ctx.probe("validated_with_crash_restart_of_the_interpreter");
+                                ctx.fault("restart-json");
+                                if pv != *live {
+                                    if ctx.violate("mismatch", format!("verdict-differs-after-interpreter-restart:{} sep={}", ut.family, ut.sep_class), format!("the uninterrupted validator {} input {}, the one that was serialised to JSON after {} steps, restored and run on {} it", if *live { "accepts" } else { "rejects" }, i, persist_after, if pv { "accepts" } else { "rejects" })) {
+                                        return;
+                                    }
+                                }
+                            }
+                            (None, _) => ctx.probe("interpreter_json_round_trip_not_faithful"),
+                            _ => {}
                         }
                     }
                     if sf.is_some() {
